@@ -518,3 +518,78 @@ def replay(cases, tier="quick", mode="mp", procs=16):
             for k, v in out["hits"].items():
                 total["hits"][k] = total["hits"].get(k, 0) + v
     return total
+
+
+# --------------------------------------------------------------------------- code -> spec traces
+def record_trace(cases, seed=0, per_case=1):
+    """Run each case once on the 60-digit object backend in a seeded random signature and log the
+    call with its result snapped to exact rationals (or 'inexact')."""
+    import random
+
+    import numpy
+
+    from . import mplib
+    from .objsm import snap
+
+    rng = random.Random(seed)
+    classes, number = mplib.mp_classes(), mplib.M
+    events = []
+    for case in cases:
+        op = case["op"]
+        if case["exp"][0] in ("undef", "partial"):
+            continue
+        va = vec_of(case["a"])
+        vb = vec_of(case["b"]) if case["b"] else None
+        sas = [s for s in signatures(len(va)) if representable(va, s)]
+        sbs = [s for s in signatures(len(vb)) if representable(vb, s)] if vb is not None else [None]
+        for _ in range(per_case):
+            sa, sb = rng.choice(sas), rng.choice(sbs)
+            flavor = "momentum" if (op in MOMENTUM_ONLY or rng.random() < 0.5) else "generic"
+            A = coords.build(classes, flavor, va, sa, number)
+            B = coords.build(classes, rng.choice(["generic", "momentum"]), vb, sb, number) if vb is not None else None
+            try:
+                with numpy.errstate(all="ignore"):
+                    raw = call_op(case, A, B, number)
+            except Exception as ex:
+                continue
+            rk = result_kind(op)
+            got = ["inexact"]
+            if rk == "bool":
+                rounding_decided = op in ("equal", "not_equal") and case["a"] == case["b"] and sa != sb
+                if case["exp"][1] != "either" and not rounding_decided:
+                    got = ["bool", "T" if bool(raw) else "F"]
+            elif rk == "num":
+                s = snap(to_mpf(raw))
+                if s is not None:
+                    got = ["num", s]
+            else:
+                rsig, st, cart = project(raw)
+                exp = expected_of(case)[1]
+                if isinstance(exp, list) and result_representable(exp, rsig):
+                    ss = [snap(c) for c in cart]
+                    if all(x is not None for x in ss):
+                        got = ["vec", ss]
+            events.append({"op": op, "a": case["a"], "b": case["b"], "p": case["p"], "sa": list(sa), "sb": list(sb) if sb else [], "got": got})
+    return events
+
+
+def validate_trace(events):
+    import shutil
+
+    from . import tlc
+
+    d = tlc.scratch_dir("atrace")
+    try:
+        path = os.path.join(d, "trace.ndjson")
+        with open(path, "w") as f:
+            for e in events:
+                f.write(json.dumps(e) + "\n")
+        cfg = "SPECIFICATION TraceSpec\nINVARIANT AllConsumed\nCHECK_DEADLOCK FALSE\n"
+        r = tlc.run_tlc("AlgebraTrace", cfg, workers=1, env={"TRACE_FILE": path}, xmx="6g")
+        verdicts = tlc.parse_cases(r["lines"], "@@VERDICT ")
+        summary = tlc.parse_cases(r["lines"], "@@SUMMARY ")
+        if not summary:
+            raise tlc.TLCError("AlgebraTrace did not reach the end of the trace:\n" + "\n".join(r["lines"][-30:]))
+        return verdicts, summary[0], {"generated": r["generated"], "distinct": r["distinct"]}
+    finally:
+        shutil.rmtree(d, ignore_errors=True)
